@@ -210,6 +210,16 @@ def gen_cases(rng, tier):
         form = r.choice(["text", "text", "interp", "compiled", "compiled", "none", "emptytext", "emptycompiled"])
         cases.append({"kind": "read", "adapter": adapter, "records": recs, "layout": _gen_layout(r, adapter, n),
                       "selector": r.choice(SELECTORS), "form": form, "shuffle": r.randint(0, 2 ** 30)})
+        if form == "text" and r.chance(40):
+            cases[-1]["premade"] = r.choice(["compiled", "compiled", "interp"])
+    # a selector text on which the two engines are known to differ (records lacking the field, C08's recorded
+    # compiled-engine finding): the reader given TEXT has to use the default engine whatever was made before
+    for adapter in ADAPTERS:
+        n = 6
+        recs = _gen_records(r, adapter, n)
+        for text in ("r.n not in [1]", "1 not in r.nums"):
+            cases.append({"kind": "read", "adapter": adapter, "records": recs, "layout": _gen_layout(r, adapter, n),
+                          "selector": text, "form": "text", "shuffle": 7, "premade": "compiled"})
     # --- reused selector objects on in-memory records
     r = rng.fork("thread")
     for i in range(n_thread):
@@ -531,6 +541,14 @@ def run_real(case):
             except Exception as e:
                 return {"setup_error": type(e).__name__, "msg": str(e)[:200]}
             url = _reader_url(adapter, path, case["layout"])
+            if case.get("premade") and form == "text":
+                # another part of the application already made a selector of the SAME text for the other engine
+                # (rdump compiles its selector): what a later reader is given must not depend on that
+                from flow.record.selector import make_selector
+                try:
+                    make_selector(text, case["premade"] == "compiled")
+                except Exception:
+                    pass
             plain, perr, pstage = _drain(lambda: RecordReader(url))
             withsel, werr, wstage = _drain(lambda: RecordReader(url, selector=_mk_selector(form, text)))
             # the consumer that filters afterwards: one selector object, reused over the records read without selector
